@@ -68,4 +68,89 @@ theorem compress_initial_lookup (π : Fri.Proof) (idx : List Nat) (p : FriParams
   obtain ⟨q0, hq, e⟩ := compress_initial_eq π idx p cp h
   exact ⟨q0, hq, fun k => by rw [e, lookupKey_sorted_foldIns]⟩
 
+theorem getD_range_map {β : Type} (n : Nat) (B : Nat → β) (d : β) (j : Nat) (hj : j < n) :
+    ((List.range n).map B).getD j d = B j := by
+  simp [List.getD_eq_getElem?_getD, List.getElem?_map, List.getElem?_range hj]
+
+theorem foldl_snd_range {α β γ : Type} (n : Nat) (f : α × List β → γ → α × List β)
+    (g : Nat → β → γ → β) (d : β)
+    (hf : ∀ a b x, (f (a, b) x).2 = (List.range n).map (fun j => g j (b.getD j d) x)) :
+    ∀ (l : List γ) (a : α) (B : Nat → β),
+      (l.foldl f (a, (List.range n).map B)).2 = (List.range n).map (fun j => l.foldl (g j) (B j)) := by
+  intro l
+  induction l with
+  | nil => intros; rfl
+  | cons x l ih =>
+    intro a B
+    rw [List.foldl_cons]
+    have e : f (a, (List.range n).map B) x
+        = ((f (a, (List.range n).map B) x).1, (List.range n).map (fun j => g j (B j) x)) := by
+      apply Prod.ext
+      · rfl
+      · rw [hf]
+        apply List.map_congr_left
+        intro j hj
+        rw [getD_range_map n B d j (List.mem_range.1 hj)]
+    rw [e, ih]
+    rfl
+
+/-- the compressed Merkle paths of reduction layer `j`, per query position (as in `compress`) -/
+def stepsCompressed (π : Fri.Proof) (idx : List Nat) (p : FriParams) (j : Nat) : List (List Digest) :=
+  let qs := idx.zip π.queries
+  let ps := qs.map fun (_, q) => (q.steps.getD j default).merkleProof
+  PathCompression.compress (p.config.capHeight + (ps.headD []).length) p.config.capHeight
+    (qs.map fun (i, _) => (layerIndex p.arityBits i j).1) ps
+
+/-- the `(coset index, entry)` pairs offered to the step map of layer `j`, in query order -/
+def stepKVs (π : Fri.Proof) (idx : List Nat) (p : FriParams) (j : Nat) : List (Nat × QueryStep) :=
+  ((idx.zip π.queries).zipIdx).map fun ((index, q), qi) =>
+    ((layerIndex p.arityBits index j).1,
+      (⟨removeAt (q.steps.getD j default).evals (layerIndex p.arityBits index j).2,
+        (stepsCompressed π idx p j).getD qi []⟩ : QueryStep))
+
+theorem compress_steps_eq (π : Fri.Proof) (idx : List Nat) (p : FriParams) (cp : CompressedFriProof)
+    (h : Compress.compress π idx p = some cp) :
+    cp.rounds.steps = (List.range p.arityBits.length).map fun j =>
+      sortByKey (foldIns [] (stepKVs π idx p j)) := by
+  unfold Compress.compress at h
+  cases hq : π.queries[0]? with
+  | none => simp [hq] at h
+  | some q0 =>
+    simp only [hq, Option.bind_eq_bind, Option.bind_some, Option.pure_def, Option.some.injEq] at h
+    subst h
+    simp only []
+    rw [show ((List.range p.arityBits.length).map fun j => sortByKey (foldIns [] (stepKVs π idx p j)))
+      = ((List.range p.arityBits.length).map fun j => foldIns [] (stepKVs π idx p j)).map sortByKey by
+        rw [List.map_map]; rfl]
+    congr 1
+    have hrep : List.replicate p.arityBits.length ([] : List (Nat × QueryStep))
+        = (List.range p.arityBits.length).map (fun _ => []) := by
+      apply List.ext_getElem <;> simp
+    rw [hrep]
+    rw [foldl_snd_range p.arityBits.length _
+      (fun j (m : List (Nat × QueryStep)) (x : (Nat × QueryRound) × Nat) =>
+        insertFirstWins m (layerIndex p.arityBits x.1.1 j).1
+          (⟨removeAt (x.1.2.steps.getD j default).evals (layerIndex p.arityBits x.1.1 j).2,
+            (stepsCompressed π idx p j).getD x.2 []⟩ : QueryStep)) []]
+    · apply List.map_congr_left
+      intro j hj
+      unfold foldIns stepKVs
+      rw [List.foldl_map]
+    · intro a b x
+      rcases x with ⟨⟨index, q⟩, qi⟩
+      simp only []
+      apply List.map_congr_left
+      intro j hj
+      have hj' : j < p.arityBits.length := List.mem_range.1 hj
+      simp [stepsCompressed, List.getElem?_range hj']
+
+/-- **(d) for `compress`, step maps**: for every layer `j`, under coset index `k` the compressed
+proof stores the entry built from the FIRST query whose layer-`j` coset index is `k` -/
+theorem compress_step_lookup (π : Fri.Proof) (idx : List Nat) (p : FriParams) (cp : CompressedFriProof)
+    (h : Compress.compress π idx p = some cp) (j : Nat) (hj : j < p.arityBits.length) :
+    ∃ m, cp.rounds.steps[j]? = some m ∧ ∀ k, lookupKey m k = lookupKey (stepKVs π idx p j) k := by
+  refine ⟨sortByKey (foldIns [] (stepKVs π idx p j)), ?_, fun k => lookupKey_sorted_foldIns _ k⟩
+  rw [compress_steps_eq π idx p cp h, List.getElem?_map, List.getElem?_range hj]
+  rfl
+
 end P2.Lemmas.C16
